@@ -536,6 +536,11 @@ func (env *Env) writePath(base Term, path []PathElem, v Term, pos token.Pos) Ter
 		}
 		cur, _, ok := ss.field(base, pe.Field)
 		if !ok {
+			if bsi := ss.Info(base.Sort); bsi != nil && bsi.Kind == KStruct && len(bsi.Fields) > 0 && bsi.Fields[0].Name == "$id" {
+				// a field of an external struct type that the spec files do not model: the store is not observable
+				env.c.noteOnce("store to field " + pe.Field + " of external type " + base.Sort + " is not modelled (ignored)")
+				return base
+			}
 			env.fail(pos, "no field %s in %s", pe.Field, base.Sort)
 		}
 		nv := env.writePath(cur, path[1:], v, pos)
